@@ -241,20 +241,7 @@ def run(ctx):
 
     # ---------------- R4 lexicographic tie-break
     ctx.rule("C12.R4", "list comparison returns the first non-Equal element ordering and otherwise compares len(left) with len(right) in that order (a proper prefix is smaller)", floor=2)
-    if key in CMP:
-        lv = vals(CMP[key][0])
-        okl = len(lv) == 3 and lv[0] == ("loop-over", ("call", "zip", ll, lr))
-        mt = lv[1][1] if okl else None
-        okm = bool(mt) and mt[0] == "match" and mt[1] == ("try", ("call", "compare", ("loopvar",), ("loopvar",)))
-        if okm:
-            arms = dict(mt[2])
-            okm = set(arms) == {("Some", ("Equal",)), ("_",)} and arms[("_",)][0] == "ret"
-        ctx.inst("C12.R4", "compare#List#first-difference", bool(okl and okm), "loop over zip(left, right); Some(Equal) continues, anything else is returned: %s" % bool(okl and okm), H.loc(CMP[key][1]["body"]))
-        fin = lv[2] if len(lv) == 3 else None
-        okf = fin == ("value", ("call", "partial_cmp", ("call", "len", ll), ("call", "len", lr)))
-        ctx.inst("C12.R4", "compare#List#length-tie-break", okf, "final value %s" % (S.show(fin[1]) if fin else None), H.loc(CMP[key][1]["body"]))
-    else:
-        ctx.inst("C12.R4", "compare#List#first-difference", False, "no (List, List) arm in compare", None)
+    list_compare_rule(ctx, "C12.R4", core)
 
     # ---------------- R7 the remainder after a lock-step walk
     ctx.rule("C12.R7", "in Value::compare / Value::equals and what they call, the remainder after a lock-step walk is never read from an iterator that was the left side of `by_ref().zip(..)`: zip takes one element from its left side before it sees that the right side is finished, so that remainder is one element short (a longer-by-one left operand would compare Equal)", floor=2)
@@ -354,3 +341,36 @@ def structural_equality(ctx, rid, core):
         ctx.inst(rid, "equals#Record", ok and some_ok, "equals on records: exact length test, every key of the left looked up in the right, missing/unequal -> false (key order ignored): %s/%s" % (ok, some_ok), H.loc(EQ[key_r][1]["body"]))
     else:
         ctx.inst(rid, "equals#Record", False, "no (Record, Record) arm in equals", None)
+
+
+def list_compare_rule(ctx, rid, core):
+    """Value::compare on two lists (shared with C11: the ordering operators broadcast it and fail where it fails)"""
+    CMP = arm_leaves(core, "compare")
+
+    def vals(lv):
+        return [x for x in lv if x[0] in ("value", "return", "when", "unless", "loop-over")]
+    key = ("tup", ("List",), ("List",))
+    ll, lr = reified("as_list", L), reified("as_list", R)
+    if key not in CMP:
+        ctx.inst(rid, "compare#List#first-difference", None, "no (List, List) arm found in compare", None)
+        return
+    lv = vals(CMP[key][0])
+    body = CMP[key][1]["body"]
+    okl = len(lv) == 3 and lv[0] == ("loop-over", ("call", "zip", ll, lr))
+    mt = lv[1][1] if okl else None
+    okm = bool(mt) and mt[0] == "match" and mt[1] == ("try", ("call", "compare", ("loopvar",), ("loopvar",)))
+    if okm:
+        arms = dict(mt[2])
+        okm = set(arms) == {("Some", ("Equal",)), ("_",)} and arms[("_",)][0] == "ret"
+    exact = bool(okl and okm)
+    # positively wrong: elements are passed over by equality (equal but unordered elements - null, records, functions - would no
+    # longer make the comparison fail), or the comparison of an element pair is not propagated with `?`
+    uses_equals = any(H.kind(x) == "MethodCall" and x["name"] == "equals" for x in H.walk(body))
+    cmp_calls = [x for x in H.walk(body) if H.kind(x) == "MethodCall" and x["name"] == "compare"]
+    v1 = True if exact else (False if uses_equals or not cmp_calls else None)
+    ctx.inst(rid, "compare#List#first-difference", v1, "loop over zip(left, right); Some(Equal) continues, anything else is returned: %s%s" % (exact, "; elements are passed over with equals()" if uses_equals else ""), H.loc(body))
+    fin = lv[2] if len(lv) == 3 else (lv[-1] if lv else None)
+    want = ("value", ("call", "partial_cmp", ("call", "len", ll), ("call", "len", lr)))
+    swapped = ("value", ("call", "partial_cmp", ("call", "len", lr), ("call", "len", ll)))
+    okf = True if fin == want else (False if fin == swapped else None)
+    ctx.inst(rid, "compare#List#length-tie-break", okf, "final value %s" % (S.show(fin[1]) if fin and len(fin) > 1 else None), H.loc(body))
